@@ -55,6 +55,66 @@ def _kind_of_dtype(dt) -> str:
     return {"b": "b", "i": "i", "u": "i", "f": "f", "U": "U", "S": "U", "O": "O"}.get(k, "O")
 
 
+def _int_width(dt):
+    """(bits, signed) for fixed-width integer dtypes narrower than 64 bits, else None (modelled as unbounded)"""
+    try:
+        d = _np.dtype(dt)
+    except Exception:
+        return None
+    if d.kind in "iu" and d.itemsize < 8:
+        return d.itemsize * 8, d.kind == "i"
+    return None
+
+
+def _wrap_int(x, bits, signed):
+    """C-style wrap-around of an integer into a fixed-width dtype"""
+    lo = -(1 << (bits - 1)) if signed else 0
+    m = 1 << bits
+    if type(x) is SInt:
+        b = _bounds(x.e)
+        if b is not None and lo <= b[0] and b[1] < lo + m:
+            return x  # provably in range: the cast is the identity
+        return SInt(_zmod(x.e - lo, m) + lo)
+    return ((int(x) - lo) % m) + lo
+
+
+def _bounds(e, depth=0):
+    """cheap syntactic interval (lo, hi) of an integer term, or None"""
+    if depth > 40:
+        return None
+    if z3.is_int_value(e):
+        v = e.as_long()
+        return v, v
+    k = e.decl().kind() if z3.is_app(e) else None
+    if k == z3.Z3_OP_ITE:
+        a, b = _bounds(e.arg(1), depth + 1), _bounds(e.arg(2), depth + 1)
+        if a is None or b is None:
+            return None
+        return builtins.min(a[0], b[0]), builtins.max(a[1], b[1])
+    if k == z3.Z3_OP_ADD:
+        lo_ = hi_ = 0
+        for c in e.children():
+            b = _bounds(c, depth + 1)
+            if b is None:
+                return None
+            lo_ += b[0]
+            hi_ += b[1]
+        return lo_, hi_
+    if k == z3.Z3_OP_SUB and e.num_args() == 2:
+        a, b = _bounds(e.arg(0), depth + 1), _bounds(e.arg(1), depth + 1)
+        if a is None or b is None:
+            return None
+        return a[0] - b[1], a[1] - b[0]
+    if k == z3.Z3_OP_UMINUS:
+        a = _bounds(e.arg(0), depth + 1)
+        return None if a is None else (-a[1], -a[0])
+    return None
+
+
+def _zmod(e, m):
+    return e % m  # z3 mod with positive constant modulus is the mathematical (non-negative) remainder
+
+
 def _kind_of_value(x) -> str:
     t = type(x)
     if t is SBool or t is bool or isinstance(x, _np.bool_):
@@ -345,7 +405,13 @@ class SArr:
             yield self[i]
 
     def __repr__(self):
-        return f"SArr(kind={self.kind}, {self.o!r})"
+        # never concretise while formatting (arrays are printed into exception messages)
+        return f"SArr(kind={self.kind}, shape={self.o.shape}, {[repr(x) for x in self.o.flat][:12]})"
+
+    __str__ = __repr__
+
+    def __format__(self, spec):
+        return repr(self)
 
     def __bool__(self):
         if self.o.size != 1:
@@ -393,9 +459,12 @@ class SArr:
 
     def astype(self, dt, copy=True):
         k = _kind_of_dtype(dt)
-        if k == self.kind:
+        w = _int_width(dt)
+        if k == self.kind and w is None:
             return SArr(self.o.copy(), k)
-        return SArr(_map1(lambda x: _cast(x, k), self.o), k)
+        if w is None:
+            return SArr(_map1(lambda x: _cast(x, k), self.o), k)
+        return SArr(_map1(lambda x: _wrap_int(_cast(x, "i"), *w), self.o), "i")
 
     def tobytes(self):
         c = self.concrete()
@@ -837,12 +906,12 @@ def asarray(x, dtype=None):
 def array(x, dtype=None, copy=True, **kw):
     if isinstance(x, SArr):
         r = SArr(x.o.copy() if copy else x.o, x.kind)
-        return r.astype(dtype) if dtype is not None and _kind_of_dtype(dtype) != r.kind else r
+        return r.astype(dtype) if dtype is not None and (_kind_of_dtype(dtype) != r.kind or _int_width(dtype)) else r
     if not _contains_sym(x):
         return _np.array(_real(x), dtype=dtype, **kw)
     k = _kind_of_any(x)
     r = SArr(_obj(x).copy(), k)
-    return r.astype(dtype) if dtype is not None and _kind_of_dtype(dtype) != k else r
+    return r.astype(dtype) if dtype is not None and (_kind_of_dtype(dtype) != k or _int_width(dtype)) else r
 
 
 def _filled(shape, v, dtype):
